@@ -38,6 +38,7 @@ impl SharedSecret {
 /// Hkdf<H>: `hash` records which H the code instantiated (0 = Sha256, 1 = Sha512)
 pub struct VHkdf { pub hash: Ghost<int>, pub salt: Ghost<Option<Seq<u8>>>, pub ikm: Ghost<Seq<u8>> }
 /// hkdf::InvalidLength
+#[derive(Debug)]
 pub struct InvalidLength {}
 impl From<InvalidLength> for Error {
     fn from(_error: InvalidLength) -> (r: Self) { Self::HKDFInvalidKeyLength }
@@ -70,6 +71,8 @@ pub struct ChaChaRng { pub os_seeded: Ghost<bool>, pub gid: Ghost<int>, pub draw
 /// the bytes [from, from+len) of the output stream of generator `gid`
 pub uninterp spec fn rng_bytes(gid: int, from: nat, len: nat) -> Seq<u8>;
 pub open spec fn fresh_draw(b: Seq<u8>, gid: int, from: nat) -> bool { b == rng_bytes(gid, from, b.len()) }
+/// the (deterministic) ChaCha20 generator seeded with `seed`
+pub uninterp spec fn gid_of_seed(seed: Seq<u8>) -> int;
 /// generator `gid` was seeded by the operating system
 pub uninterp spec fn os_seeded_gid(gid: int) -> bool;
 impl ChaChaRng {
@@ -77,7 +80,7 @@ impl ChaChaRng {
     pub fn from_os_rng() -> (r: ChaChaRng) ensures r.os_seeded@, r.drawn@ == 0, os_seeded_gid(r.gid@) { unimplemented!() }
     /// deterministic constructors: NOT os-seeded (present so that a change to them is decided, not "unsupported")
     #[verifier::external_body]
-    pub fn from_seed(seed: [u8; 32]) -> (r: ChaChaRng) ensures !r.os_seeded@, r.drawn@ == 0 { unimplemented!() }
+    pub fn from_seed(seed: [u8; 32]) -> (r: ChaChaRng) ensures !r.os_seeded@, r.drawn@ == 0, r.gid@ == gid_of_seed(seed@) { unimplemented!() }
     #[verifier::external_body]
     pub fn seed_from_u64(seed: u64) -> (r: ChaChaRng) ensures !r.os_seeded@, r.drawn@ == 0 { unimplemented!() }
     #[verifier::external_body]
@@ -96,3 +99,22 @@ impl ChaChaRng {
             final(dest)@.len() == old(dest)@.len(), fresh_draw(final(dest)@, old(self).gid@, old(self).drawn@),
     { unimplemented!() }
 }
+
+impl StaticSecret {
+    #[verifier::external_body]
+    pub fn to_bytes(&self) -> (r: [u8; 32]) ensures r@ == self.bytes() { unimplemented!() }
+    #[verifier::external_body]
+    pub fn zeroize(&mut self) { }
+}
+/// sha2::Sha512::digest(bytes)[0..32]  -- the first 32 bytes of SHA-512
+pub uninterp spec fn sha512(input: Seq<u8>) -> Seq<u8>;
+#[verifier::external_body]
+pub fn vsha512_digest(data: &[u8]) -> (r: Vec<u8>) ensures r@ == sha512(data@), r@.len() == 64 { unimplemented!() }
+
+/// curve25519_parser::parse_openssl_25519_privkey on the 48-byte DER form PREFIX ++ scalar gives the scalar back.
+/// ASSUMED here (third-party DER/PEM parsers are out of Verus' reach); it is the subject of property C18.
+#[verifier::external_body]
+pub fn parse_openssl_25519_privkey(data: &[u8]) -> (r: Result<StaticSecret, ()>)
+    ensures (data@.len() == 48 && data@.subrange(0, 16) == seq![48u8, 46u8, 2u8, 1u8, 0u8, 48u8, 5u8, 6u8, 3u8, 43u8, 101u8, 110u8, 4u8, 34u8, 4u8, 32u8])
+        ==> (r is Ok && r->Ok_0.bytes() == data@.subrange(16, 48)),
+{ unimplemented!() }
